@@ -11,6 +11,10 @@ EXTENDS Integers, Sequences, TLC, Json, FiniteSets
 CONSTANTS MaxLen, MaxDepth, MaxFactor
 
 XS(n) == [i \in 1..n |-> ((i * 5) % 7) + 1]
+(* a second scanned input with a trailing axis, and a per-step output that is a vector: the
+   stacked output then has shape (length, 3) -- pytrees with heterogeneous leaves *)
+XM(n) == [i \in 1..n |-> <<i, 10 + i>>]
+VecOut(x, m) == <<x, m[1], m[2] + x>>
 InitCarry == 1
 
 RECURSIVE Prod(_)
@@ -18,8 +22,8 @@ Prod(s) == IF s = <<>> THEN 1 ELSE Head(s) * Prod(Tail(s))
 
 LenSets == {s \in UNION {[1..d -> 1..MaxFactor] : d \in 1..MaxDepth} : Prod(s) <= MaxLen}
 
-VARIABLES lens, idx, c, buf, pc, lvl, result, consumed
-vars == <<lens, idx, c, buf, pc, lvl, result, consumed>>
+VARIABLES lens, idx, c, buf, vbuf, pc, lvl, result, vresult, consumed
+vars == <<lens, idx, c, buf, vbuf, pc, lvl, result, vresult, consumed>>
 
 D == Len(lens)
 N == Prod(lens)
@@ -35,7 +39,8 @@ Init == /\ lens \in LenSets
         /\ idx = [d \in 1..Len(lens) |-> 0]
         /\ c = InitCarry
         /\ buf = [d \in 1..Len(lens) |-> <<>>]
-        /\ pc = "run" /\ lvl = Len(lens) /\ result = <<>> /\ consumed = <<>>
+        /\ vbuf = [d \in 1..Len(lens) |-> <<>>]
+        /\ pc = "run" /\ lvl = Len(lens) /\ result = <<>> /\ vresult = <<>> /\ consumed = <<>>
 
 (* innermost scan body: (carry, y) = f(carry, x) *)
 Apply == /\ pc = "run"
@@ -43,27 +48,30 @@ Apply == /\ pc = "run"
                 x == XS(N)[p]
             IN  /\ c' = 2 * c + x
                 /\ buf' = [buf EXCEPT ![D] = Append(@, c * x + 1)]
+                /\ vbuf' = [vbuf EXCEPT ![D] = Append(@, VecOut(x, XM(N)[p]))]
                 /\ consumed' = Append(consumed, p)
          /\ pc' = "ret" /\ lvl' = D
-         /\ UNCHANGED <<lens, idx, result>>
+         /\ UNCHANGED <<lens, idx, result, vresult>>
 
 (* one more iteration of the scan at level lvl *)
 Iterate == /\ pc = "ret" /\ idx[lvl] + 1 < lens[lvl]
            /\ idx' = [idx EXCEPT ![lvl] = @ + 1]
            /\ pc' = "run"
-           /\ UNCHANGED <<lens, c, buf, lvl, result, consumed>>
+           /\ UNCHANGED <<lens, c, buf, vbuf, lvl, result, vresult, consumed>>
 
 (* the scan at level lvl is finished: return its stacked output to the enclosing level,
    concatenating when this level itself collected chunks from sub-scans *)
 Return == /\ pc = "ret" /\ idx[lvl] + 1 = lens[lvl]
           /\ LET out == IF lvl = D THEN buf[lvl] ELSE Concat(buf[lvl])
+                 vout == IF lvl = D THEN vbuf[lvl] ELSE Concat(vbuf[lvl])
              IN  IF lvl = 1
-                 THEN /\ result' = out /\ pc' = "done"
-                      /\ UNCHANGED <<idx, buf, lvl>>
+                 THEN /\ result' = out /\ vresult' = vout /\ pc' = "done"
+                      /\ UNCHANGED <<idx, buf, vbuf, lvl>>
                  ELSE /\ buf' = [buf EXCEPT ![lvl] = <<>>, ![lvl - 1] = Append(@, out)]
+                      /\ vbuf' = [vbuf EXCEPT ![lvl] = <<>>, ![lvl - 1] = Append(@, vout)]
                       /\ idx' = [idx EXCEPT ![lvl] = 0]
                       /\ lvl' = lvl - 1 /\ pc' = "ret"
-                      /\ UNCHANGED result
+                      /\ UNCHANGED <<result, vresult>>
           /\ UNCHANGED <<lens, c, consumed>>
 
 Next == Apply \/ Iterate \/ Return
@@ -82,9 +90,10 @@ GradXs(xs) == [i \in 1..Len(xs) |-> Lam(xs, i) + FlatCarry(xs, i - 1)]
 
 NestedEqFlat == pc = "done" => /\ c = FlatCarry(XS(N), N)
                                /\ result = FlatOuts(XS(N))
+                               /\ vresult = [i \in 1..N |-> VecOut(XS(N)[i], XM(N)[i])]
 InOrder == \A i \in 1..Len(consumed) : consumed[i] = i
 Export == pc = "done" =>
    PrintT(<<"CASE", ToJson([lens |-> lens, xs |-> XS(N), init |-> InitCarry, carry |-> c,
-                            outs |-> result, ginit |-> GradInit(XS(N)),
+                            outs |-> result, xm |-> XM(N), vouts |-> vresult, ginit |-> GradInit(XS(N)),
                             gxs |-> GradXs(XS(N))])>>)
 =============================================================================
